@@ -358,6 +358,20 @@ class SymEval(object):
       return
     if isinstance(s, ast.Expr):
       self._calls(s.value, env, fn, sink, out, depth, loops)
+      # L.append(v) on a list literal built in straight-line code: the list term grows (inside a loop the element count is
+      # not known: the list becomes the comprehension-like ('listof', element alternatives))
+      c = s.value
+      if isinstance(c, ast.Call) and isinstance(c.func, ast.Attribute) and c.func.attr == 'append' and isinstance(c.func.value, ast.Name) and \
+         len(c.args) == 1 and not c.keywords:
+        cur = env.get(c.func.value.id)
+        if isinstance(cur, tuple) and cur and cur[0] == 'list':
+          v = self.ev(c.args[0], env, fn)
+          if not loops:
+            env[c.func.value.id] = cur + (v,)
+          elif len(cur) > 1 and isinstance(cur[-1], tuple) and cur[-1][0] == 'rest':
+            env[c.func.value.id] = cur[:-1] + (('rest', either(cur[-1][1], v)),)
+          else:
+            env[c.func.value.id] = cur + (('rest', v),)       # zero or more elements, each one of these alternatives
       return
     if isinstance(s, ast.Return):
       if s.value is not None:
